@@ -90,7 +90,33 @@ Definition cp_top (fuel : nat) (mx : Z) : cp_state :=
             tm ([], false).
 End CP.
 
+(* The same back-tracking without the limit and without the exception: the
+   enumeration critical_path performs when cp_limit is never reached.  Used only
+   to STATE what the limited version returns (a prefix of this list). *)
+Section CPAll.
+Variable tm : list (wid * Z).
+
+Fixpoint cp_enum (fuel : nat) (path : list net) (w : wid) : list (wid * list net) :=
+  match fuel with
+  | O => []
+  | S f =>
+    if is_base nl w then [(w, path)]
+    else match find_src (nets nl) w with
+         | None => []
+         | Some s =>
+           let m := maxl (map (tval tm) (nargs s)) in
+           flat_map (fun a => if tval tm a =? m then cp_enum f (s :: path) a else []) (nargs s)
+         end
+  end.
+
+Definition cp_enum_top (fuel : nat) (mx : Z) : list (wid * list net) :=
+  flat_map (fun wt : wid * Z => if snd wt =? mx then cp_enum fuel [] (fst wt) else []) tm.
+End CPAll.
+
 Definition cp_fuel : nat := S (length (nets nl)).
+
+Definition critical_paths_all : list (wid * list net) :=
+  cp_enum_top timing_map cp_fuel max_length.
 
 Definition critical_path (cp_limit : Z) : list (wid * list net) :=
   fst (cp_top timing_map cp_limit cp_fuel max_length).
